@@ -185,18 +185,18 @@ theorem c09_terminates (cfg : Cfg α β) (hnp : NoPartial cfg) (σ : Nat → Age
   terminates cfg hnp σ hf
 
 /-- without faults `parallelize` never raises -/
-theorem c09_no_error_without_fault (cfg : Cfg α β) (hnf : ∀ j, cfg.fault j = none) (σ : Nat → Agent)
-    (k : Nat) : (run cfg σ k).m ≠ .error :=
-  (clean_run cfg hnf σ k).noerr
+theorem c09_no_error_without_fault (cfg : Cfg α β) (hnf : ∀ j, cfg.fault j = none)
+    (hmf : cfg.mfault = none) (σ : Nat → Agent) (k : Nat) : (run cfg σ k).m ≠ .error :=
+  (clean_run cfg hnf hmf σ k).1.noerr
 
 /-- **Progress without faults**: every fair fault-free run ends with the complete, ordered result. -/
-theorem c09_progress_no_fault (cfg : Cfg α β) (hnf : ∀ j, cfg.fault j = none) (σ : Nat → Agent)
-    (hf : Fair cfg.nchild σ) : ∃ k, (run cfg σ k).m = .done (expected cfg) := by
+theorem c09_progress_no_fault (cfg : Cfg α β) (hnf : ∀ j, cfg.fault j = none) (hmf : cfg.mfault = none)
+    (σ : Nat → Agent) (hf : Fair cfg.nchild σ) : ∃ k, (run cfg σ k).m = .done (expected cfg) := by
   obtain ⟨k, hk⟩ := terminates cfg (fun j => by simp [hnf j, partialFault]) σ hf
   refine ⟨k, ?_⟩
   cases hm : (run cfg σ k).m with
   | done r => rw [c09_no_partial_results cfg σ k r hm]
-  | error => exact absurd hm (c09_no_error_without_fault cfg hnf σ k)
+  | error => exact absurd hm (c09_no_error_without_fault cfg hnf hmf σ k)
   | _ => simp [hm, MPhase.terminal] at hk
 
 /-- a worker that raises or dies never leads to a returned result, whatever the schedule -/
@@ -216,13 +216,55 @@ theorem c09_fault_loud (cfg : Cfg α β) (hnp : NoPartial cfg) (j : Nat) (heff :
   | error => rfl
   | _ => simp [hm, MPhase.terminal] at hk
 
-/-- the statement of the design (`c09_fault_loud_statement`), now a theorem for the current code -/
-def c09_fault_loud_statement : Prop :=
-  ∀ (cfg : Cfg Nat Nat) (σ : Nat → Agent), NoPartial cfg → (∃ j, Effective cfg j) → Fair cfg.nchild σ →
-    ∃ k, (run cfg σ k).m = .error
+/-- the master process is a worker too: if the function raises at one of the master's own tasks the
+call never returns a result … -/
+theorem c09_master_fault_never_returns (cfg : Cfg α β) (hmf : MasterFault cfg) (σ : Nat → Agent)
+    (k : Nat) (r : List β) : (run cfg σ k).m ≠ .done r :=
+  never_done_master cfg hmf σ k r
 
-theorem c09_fault_loud_holds : c09_fault_loud_statement :=
-  fun cfg σ hnp ⟨j, hj⟩ hf => c09_fault_loud cfg hnp j hj σ hf
+/-- … and every fair run ends with the error -/
+theorem c09_master_fault_loud (cfg : Cfg α β) (hnp : NoPartial cfg) (hmf : MasterFault cfg)
+    (σ : Nat → Agent) (hf : Fair cfg.nchild σ) : ∃ k, (run cfg σ k).m = .error := by
+  obtain ⟨k, hk⟩ := terminates cfg hnp σ hf
+  refine ⟨k, ?_⟩
+  cases hm : (run cfg σ k).m with
+  | done r => exact absurd hm (never_done_master cfg hmf σ k r)
+  | error => rfl
+  | _ => simp [hm, MPhase.terminal] at hk
+
+/-- **"raises or dies at any point"**, the statement of the design (`c09_fault_loud_statement`): a child
+raises / exits at one of its tasks, dies between `rqueue.put` and the log sentinel (result delivered or
+lost), dies with a non-zero exit code after the sentinel, or the function raises in the master — every
+fair run ends with an error.  The one point not covered is a death in the middle of a pipe write
+(`NoPartial`, see `c09_partial_write_hang_counterexample`). -/
+def c09_fault_loud_statement : Prop :=
+  ∀ (cfg : Cfg Nat Nat) (σ : Nat → Agent), NoPartial cfg → ((∃ j, Effective cfg j) ∨ MasterFault cfg) →
+    Fair cfg.nchild σ → ∃ k, (run cfg σ k).m = .error
+
+theorem c09_fault_loud_holds : c09_fault_loud_statement := by
+  intro cfg σ hnp h hf
+  rcases h with ⟨j, hj⟩ | hmf
+  · exact c09_fault_loud cfg hnp j hj σ hf
+  · exact c09_master_fault_loud cfg hnp hmf σ hf
+
+/-- **No child is left behind**: whenever `parallelize` has raised — any faults, any schedule — every
+child process has terminated (`stop_processes()` before each `raise`; the accidental exits `KeyError`
+and "pid out of range" are unreachable). -/
+theorem c09_error_no_orphans (cfg : Cfg α β) (σ : Nat → Agent) (k : Nat)
+    (h : (run cfg σ k).m = .error) : ∀ j < cfg.nchild, isExited ((run cfg σ k).ws j).phase = true :=
+  error_no_orphans cfg σ k h
+
+/-- "a fault-free run never ends with an error" for the gather loop with the two reads swapped
+(`rqueue.get` first, exit codes after `queue.Empty`) — false: -/
+def c09_check_after_get_statement : Prop :=
+  ∀ (cfg : Cfg Nat Nat) (σ : Nat → Agent) (k : Nat), (∀ j, cfg.fault j = none) → cfg.mfault = none →
+    (Swapped.run cfg σ k).m ≠ .error
+
+/-- the child delivers its result and exits between the master's two reads: spurious `RuntimeError`.
+In `masterStep` the exit codes are a snapshot taken *before* the `get` (field `ended`), for which
+`c09_no_error_without_fault` holds. -/
+theorem c09_check_after_get_counterexample : ¬ c09_check_after_get_statement :=
+  fun h => h cfgNoFault (sched preSwapped 1) 8 (fun _ => rfl) rfl swapped_error
 
 /-- the same claim for a child that dies *while its result is being written into the pipe* (possible as
 soon as the result is larger than the pipe buffer) — false for the current code -/
@@ -249,10 +291,18 @@ model really reaches the claimed ends -/
 
 example : Fair 2 (sched [] 2) := sched_fair [] 2
 example : Effective cfgRaise 0 := ⟨by decide, Or.inl ⟨1, Or.inl rfl, by decide⟩⟩
-example : Effective cfgAfterQueued 0 := ⟨by decide, Or.inr ⟨3, true, rfl⟩⟩
-example : (run cfgRaise (sched preRaise 2) 13).m = .error := by decide
-example : (run cfgExit0 (sched [] 1) 8).m = .error := by decide
-example : (run cfgAfterQueued (sched [] 1) 12).m = .error := by decide
+example : Effective cfgAfterQueued 0 := ⟨by decide, Or.inr (Or.inl ⟨3, true, rfl⟩)⟩
+example : Effective (mkCfg (fun _ _ x => x) [0, 1, 2, 3] 2 (fun j => if j = 0 then some (.exitAfterSentinel 3) else none) false) 0 :=
+  ⟨by decide, Or.inr (Or.inr ⟨3, by decide, rfl⟩)⟩
+example : (run (mkCfg (fun _ _ x => x) [0, 1, 2, 3] 2 (fun j => if j = 0 then some (.exitAfterSentinel 3) else none) false)
+    (sched [] 1) 24).m = .error := by decide
+example : MasterFault (mkCfg (fun _ _ x => x) [0, 1, 2, 3] 2 (fun _ => none) false (some 1)) := ⟨1, rfl, by decide⟩
+example : (run (mkCfg (fun _ _ x => x) [0, 1, 2, 3] 2 (fun _ => none) false (some 1)) (sched [] 1) 6).m = .error := by
+  decide
+example : (run cfgNoFault (sched preSwapped 1) 20).m = .done [0, 1] := by decide
+example : (run cfgRaise (sched preRaise 2) 24).m = .error := by decide
+example : (run cfgExit0 (sched [] 1) 16).m = .error := by decide
+example : (run cfgAfterQueued (sched [] 1) 20).m = .error := by decide
 example : (run (mkCfg (fun _ _ x => 10 * x) [0, 1, 2, 3, 4] 3 (fun _ => none) true) (sched [] 2) 40).m
     = .done [0, 10, 20, 30, 40] := by decide
 set_option maxRecDepth 4000 in
@@ -315,11 +365,69 @@ theorem c09_bounded_work (cfg : Cfg α β) (σ : Nat → Agent) (k : Nat) :
     · have hd' : pot cfg (run cfg σ (k+1)) < pot cfg (run cfg σ k) := by simpa [run] using hd
       simp [hd']; omega
 
-/-- the bound, explicit: linear in the number of tasks (3 per task of a child, 1 per task of the master)
-plus 9 per child and 3 -/
+/-- the bound, explicit: linear in the number of tasks (4 per task of a child, 1 per task of the master)
+plus 12 per child and 5 -/
 theorem c09_pot_init (cfg : Cfg α β) : pot cfg (init : State (MPhase β) β) =
-    sumTo cfg.nchild (fun j => 3 * ((cfg.chunk (j+1)).length + 3)) + ((cfg.chunk 0).length + 3) := by
-  simp [pot, init, initChild, childPot, stepsLeft, masterLeft]
+    sumTo cfg.nchild (fun j => 4 * ((cfg.chunk (j+1)).length + 3)) + ((cfg.chunk 0).length + 4) + 1 := by
+  simp [pot, init, initChild, childPot, stepsLeft, masterLeft, endedBit]
+
+/-- **Bounded time under a concrete fair scheduler**: with round-robin over master and children
+`parallelize` has ended after at most `pot init + 1` rounds, i.e. `(pot init + 1)·ncpu` steps, whatever
+the faults (no death in the middle of a pipe write). -/
+theorem c09_round_robin_bound (cfg : Cfg α β) (hnp : NoPartial cfg) :
+    ∃ k, k ≤ (pot cfg (init : State (MPhase β) β) + 1) * (cfg.nchild + 1) ∧
+      (run cfg (sched [] cfg.nchild) k).m.terminal = true :=
+  round_robin_bound cfg hnp
+
+/-! ### `get_ncpu` and `Analysis.do_trials` -/
+
+/-- what `get_ncpu` returns is a legal worker count: the hypothesis `1 ≤ ncpu` of the theorems about
+`mkCfg` is established by the code that computes `ncpu` -/
+theorem C09.getNcpu_final (v : PyVal) (n : Nat)
+    (h : (match v with
+      | PyVal.int k => if k < 1 then (Except.error "ValueError" : Except String Nat) else Except.ok k.toNat
+      | _ => Except.error "TypeError") = .ok n) : 1 ≤ n := by
+  cases v with
+  | int k =>
+    simp only at h
+    split at h
+    · simp at h
+    · simp at h; omega
+  | none => simp at h
+  | other => simp at h
+
+theorem c09_get_ncpu_ge_one (c l : PyVal) (n : Nat) (h : getNcpu c l = .ok n) : 1 ≤ n :=
+  C09.getNcpu_final _ n h
+
+/-- `get_ncpu`: the local setting wins over the configuration, the default is 1 -/
+theorem c09_get_ncpu_spec (c : PyVal) (k : Int) (hk : 1 ≤ k) :
+    getNcpu c (.int k) = .ok k.toNat ∧ getNcpu (.int k) .none = .ok k.toNat ∧ getNcpu .none .none = .ok 1 := by
+  refine ⟨?_, ?_, ?_⟩ <;> simp [getNcpu] <;> omega
+
+/-- **`do_trials` order**: with `ncpu` from `get_ncpu` and at least one trial, a run of the parallel map
+that returns makes `do_trials` return one record per trial, in trial order -/
+theorem c09_do_trials_order (c l : PyVal) (ncpu : Nat) (hn : getNcpu c l = .ok ncpu) (g : α → β)
+    (args : List α) (hne : args ≠ []) (fault : Nat → Option Fault) (logs : Bool) (σ : Nat → Agent) (k : Nat)
+    (r : List β) (hend : (run (mkCfg (fun _ _ x => g x) args ncpu fault logs) σ k).m = .done r) :
+    assembleTrials r = .ok (args.map g) := by
+  have := c09_order g args ncpu (c09_get_ncpu_ge_one c l ncpu hn) fault logs σ k r hend
+  subst this
+  cases args with
+  | nil => exact absurd rfl hne
+  | cons a as => rfl
+
+/-- "`do_trials` returns the (possibly empty) list of records" — false without a trial -/
+def c09_do_trials_total_statement : Prop := ∀ rs : List Nat, ∃ r, assembleTrials rs = .ok r
+
+/-- `do_trials(n = 0)`: `result_list[0].dtype` raises `IndexError` (open finding) -/
+theorem c09_do_trials_zero_counterexample : ¬ c09_do_trials_total_statement := by
+  intro h
+  obtain ⟨r, hr⟩ := h []
+  simp [assembleTrials] at hr
+
+example : getNcpu .none (.int 3) = .ok 3 := by decide
+example : getNcpu (.int 0) .none = .error "ValueError" := by decide
+example : getNcpu .other .none = .error "TypeError" := by decide
 
 /-! ### the status queue (`Model/ParStatus.lean`): a pipe of finite capacity in front of the exit -/
 
